@@ -24,3 +24,10 @@ Proof.
   apply (sweep256 (fun b => eqb (Z.leb 32 (wraps 8 (Z.of_N b)) && Z.leb (wraps 8 (Z.of_N b)) 126 && negb (g_c12_separator (wraps 8 (Z.of_N b))))%bool (tchar b)));
     [vm_compute; reflexivity|exact H].
 Qed.
+
+(* xdigit(int c) is called with a char argument (sign extended) by util::urldecode *)
+Lemma link_xdigit b : b < 256 -> g_c12_xdigit (wraps 8 (Z.of_N b)) = xdigit b.
+Proof.
+  intros H. apply eqb_prop.
+  apply (sweep256 (fun b => eqb (g_c12_xdigit (wraps 8 (Z.of_N b))) (xdigit b))); [vm_compute; reflexivity|exact H].
+Qed.
